@@ -114,9 +114,9 @@ macro_rules! per_set {
                         Err(_) => { std::println!("DIFF {} private key with byte {} altered rejected", stringify!($set), pos); $bad += 1; } }
                 }
                 // private keys: extremal in-range coefficient patterns built with the reference encoder
-                for pat in 0..4 {
+                for pat in 0..5 {
                     let top = 1i64 << 12;
-                    let f = |i: usize, lo: i64, hi: i64| -> i64 { match pat { 0 => lo, 1 => hi, 2 => if i % 2 == 0 { lo } else { hi }, _ => lo + ((i as i64 * 7) % (hi - lo + 1)) } };
+                    let f = |i: usize, lo: i64, hi: i64| -> i64 { match pat { 0 => lo, 1 => hi, 2 => if i % 2 == 0 { lo } else { hi }, 4 => 0, _ => lo + ((i as i64 * 7) % (hi - lo + 1)) } };
                     let s1: Vec<refimpl::Poly> = (0..p.l).map(|_| core::array::from_fn(|i| f(i, -p.eta, p.eta))).collect();
                     let s2: Vec<refimpl::Poly> = (0..p.k).map(|_| core::array::from_fn(|i| f(i + 1, -p.eta, p.eta))).collect();
                     let t0: Vec<refimpl::Poly> = (0..p.k).map(|_| core::array::from_fn(|i| f(i, -top + 1, top))).collect();
